@@ -30,7 +30,8 @@ From Coq Require Import List NArith PArith Bool Arith FMapPositive.
 From OxiVerif Require Import Num.Natural Num.NatBase Num.NaturalProofs Num.NaturalAddProofs
   Num.NaturalCmpProofs Num.NaturalDigitsProofs Num.NaturalFmtProofs Num.NaturalExamples
   Num.Saturating Num.SaturatingProofs.
-From OxiVerif Require Import DD.Table DD.TableProofs DD.SatCount DD.SatCountProofs DD.SatQueryProofs.
+From OxiVerif Require Import DD.Table DD.TableExtra DD.TableProofs DD.SatCount DD.SatCountProofs DD.SatQueryProofs
+  DD.SatBcddSatProofs.
 Import ListNotations.
 
 (** * Part 1: Natural *)
@@ -403,6 +404,31 @@ Theorem C12_sat_saturating_bdd_exact : forall w, (2 <= w)%N -> forall s vars r,
   Some (2 ^ N.of_nat (vars - nlevels s) * count_levels (nlevels s) (fun_bdd s r))%N.
 Proof. exact sat_bdd_saturating_exact. Qed.
 Print Assumptions C12_sat_saturating_bdd_exact.
+
+(** ... BCDD likewise ([terms_kind]: a BCDD has one terminal) *)
+Theorem C12_sat_saturating_bcdd : forall w, (2 <= w)%N -> forall s vars e,
+  WF s -> s_kind s = KBcdd -> terms_kind s -> nlevels s <= vars -> ref_ok s (eref e) ->
+  sat_bcdd_sat w s (S (nlevels s)) vars e =
+  option_map (saturate w vars) (sat_bcdd s (S (nlevels s)) vars e).
+Proof. exact sat_bcdd_saturating. Qed.
+Print Assumptions C12_sat_saturating_bcdd.
+
+Theorem C12_sat_saturating_bcdd_exact : forall w, (2 <= w)%N -> forall s vars e,
+  WF s -> s_kind s = KBcdd -> terms_kind s -> nlevels s <= vars -> (N.of_nat vars < w)%N ->
+  ref_ok s (eref e) ->
+  sat_bcdd_sat w s (S (nlevels s)) vars e =
+  Some (2 ^ N.of_nat (vars - nlevels s) * count_levels (nlevels s) (fun_bcdd s e))%N.
+Proof. exact sat_bcdd_saturating_exact. Qed.
+Print Assumptions C12_sat_saturating_bcdd_exact.
+
+Theorem C12_sat_example_saturating_bcdd :
+  wf_full_b ex_sat_bcdd = true /\
+  sat_bcdd_sat 64 ex_sat_bcdd 4 63 (mkEdge (RN 4) false) = Some (5 * 2 ^ 60)%N /\
+  sat_bcdd_sat 64 ex_sat_bcdd 4 63 (mkEdge (RN 4) true) = Some (3 * 2 ^ 60)%N /\
+  sat_bcdd_sat 64 ex_sat_bcdd 4 64 (mkEdge (RN 4) true) = Some (sat_max 64) /\
+  sat_bcdd_sat 64 ex_sat_bcdd 4 64 (mkEdge (RT 0) true) = Some 0%N.
+Proof. exact ex_sat_bcdd_u64. Qed.
+Print Assumptions C12_sat_example_saturating_bcdd.
 
 (** ZBDD -- the exact count while it is representable, otherwise the marker *)
 Theorem C12_sat_saturating_zbdd : forall w, (2 <= w)%N -> forall s vars r,
